@@ -17,7 +17,8 @@ def run(ctx):
             ("layered", "mem", 900 if quick else 12000, "failures"),
             ("layered", "db:2", 300 if quick else 3000, "failures"),
             ("all", "mem", 500 if quick else 8000, "graded_failures"),
-            ("tfc", "mem", 300 if quick else 5000, "failures")]
+            ("tfc", "mem", 300 if quick else 5000, "failures"),
+            ("ptfc", "mem", 300 if quick else 5000, "failures")]
     total, dis_all, dists, real_fail, samples, hist_total, changeback = 0, [], {}, [], [], 0, []
     execs = noexec = 0
     for k, (mode, cfg, n, fn) in enumerate(runs):
